@@ -7,4 +7,5 @@ CONSTANTS
   WFull = 1000
   RecvMax = 1024
   Hows = {"close", "atexit"}
+  MaxClose = 1
 CHECK_DEADLOCK FALSE
